@@ -895,8 +895,74 @@ def judge_twins(sc):
     return None
 
 
+def gen_legacy(rng, i):
+    """The legacy trainer (reservoirpy.compat): ESN.train / RidgeRegression.fit on a batch whose sequence k >= 1 is malformed
+    (NaN among inputs / targets: the final solve raises; targets shorter / longer / wider: sequence k is rejected while it is
+    processed), then the same call on clean data, compared with fresh objects trained on the clean data only."""
+    api = ["esn.train", "rr.fit"][i % 2]
+    fault = ["nan", "ynan", "ywide", "yshort", "ylong"][(i // 2) % 5]
+    N, d, dout = rng.randint(2, 4), rng.randint(1, 2), 1
+    nseq = rng.randint(2, 3)
+    din = d if api == "esn.train" else N
+    def batch(n):
+        lens = [rng.randint(4, 7) for _ in range(n)]
+        return [rows(rng, T, din) for T in lens], [rows(rng, T, dout) for T in lens]
+    X, Y = batch(nseq)
+    X2, Y2 = batch(rng.randint(1, 2))
+    return {"legacy": api, "fault": {"kind": fault, "k": rng.randint(1, nseq - 1)}, "N": N, "d": d, "dout": dout,
+            "W": rows(rng, N, N, 2, 2), "Win": rows(rng, N, d + 1, 2, 1), "lr": Fraction(1, 2), "lam": rng.choice(LAMS),
+            "X": X, "Y": Y, "X2": X2, "Y2": Y2, "mode": "legacy:%s:%s" % (api, fault), "tag": i}
+
+
+def judge_legacy(sc):
+    rpy()
+    from reservoirpy.compat import ESN as LegacyESN
+    from reservoirpy.compat.regression_models import RidgeRegression
+    api, din = sc["legacy"], (sc["d"] if sc["legacy"] == "esn.train" else sc["N"])
+
+    def make():
+        if api == "esn.train":
+            return LegacyESN(lr=float(Fraction(sc["lr"])), W=farr(sc["W"], sc["N"]), Win=farr(sc["Win"], sc["d"] + 1),
+                             ridge=float(Fraction(sc["lam"])), input_bias=True)
+        m = RidgeRegression(float(Fraction(sc["lam"])), workers=1)
+        m.initialize(sc["N"], sc["dout"])
+        return m
+
+    def go(o, X, Y):
+        return o.train(X, Y, workers=1) if api == "esn.train" else o.fit(X, Y)
+
+    def wout(o):
+        return None if o.Wout is None else [np.asarray(o.Wout, dtype=float).reshape(-1)]
+    X, Ys = apply_fault({"fault": sc["fault"]}, [farr(s, din) for s in sc["X"]], {0: [farr(s, sc["dout"]) for s in sc["Y"]]})
+    X2, Y2 = [farr(s, din) for s in sc["X2"]], [farr(s, sc["dout"]) for s in sc["Y2"]]
+    e, f = make(), make()
+    w0 = wout(e)
+    try:
+        go(e, X, Ys[0])
+        return None                      # the malformed batch was accepted: nothing to compare
+    except Exception as ex:  # noqa: BLE001
+        first = "%s: %s" % (type(ex).__name__, str(ex)[:80])
+    # what 6a8f27d repaired (the solve raising, RidgeRegression.fit's own loop) vs the per-sequence loop of the legacy ESN.train
+    key = "failed-fit:sums-kept:legacy" if (api == "rr.fit" or sc["fault"]["kind"] in ("nan", "ynan")) \
+        else "failed-fit:partial-sums-kept:legacy-esn-train"
+    if not _same(w0, wout(e)):
+        return _viol("failed-fit:weights-changed:legacy", "a failed legacy %s (%s) changed Wout" % (api, first), sc, None, None)
+    go(f, X2, Y2)
+    try:
+        go(e, X2, Y2)
+    except Exception as ex:  # noqa: BLE001
+        return _viol(key, "legacy %s on clean data raises %s: %s after a failed one (%s)" % (api, type(ex).__name__, str(ex)[:60], first),
+                     sc, [x.tolist() for x in wout(f)], None)
+    if not _same(wout(e), wout(f)):
+        return _viol(key, "legacy %s on clean data after a failed one (%s) differs from the same call on a fresh object" % (api, first),
+                     sc, [x.tolist() for x in wout(f)], [x.tolist() for x in wout(e)])
+    return None
+
+
 def judge(case):
     sc = case["scenario"]
+    if "legacy" in sc:
+        return judge_legacy(sc)
     if "twins" in sc:
         return judge_twins(sc)
     if "second" in sc:
@@ -936,6 +1002,14 @@ def oracle(ctx, scale=1):
         if v:
             out.append(v)
     n3 += n4
+    n5 = ctx.n(20, 200) * scale
+    for i in range(n5):
+        sc = gen_legacy(rng, i)
+        dist[sc["mode"]] = dist.get(sc["mode"], 0) + 1
+        v = judge_legacy(sc)
+        if v:
+            out.append(v)
+    n3 += n5
     return {"evaluations": n1 + n2 + n3, "violations": out, "distribution": dist,
             "rule": "(i)/(ii) sha256 of every parameter and hyper of every node before/after each operation of a random history: fixed ones "
                     "never change, learned ones only on trainable targets of a training operation; (iii)-(v) two-fit sessions on Ridge, "
@@ -945,11 +1019,13 @@ def oracle(ctx, scale=1):
                     "NaN); freeze scenarios: a readout (LMS, RLS, Ridge, SumOffline) frozen before / after model assembly / after a first "
                     "session, then Model.train / Model.fit with array and name-keyed targets naming it, and node-level calls: its parameters "
                     "never change; twins: two same-named live Ridge readouts (deep copies of one template / a Ridge and a subclass) with interleaved "
-                    "partial_fit sessions each equal the same readout trained alone on its own batches"}
+                    "partial_fit sessions each equal the same readout trained alone on its own batches; legacy trainer (compat.ESN.train, "
+                    "compat RidgeRegression.fit): a call failing on a malformed sequence k >= 1 / on NaN data, then the same call on clean data == "
+                    "fresh objects on the clean data, Wout untouched by the failed call"}
 
 
 def replay(payload):
     sc = payload["scenario"]
-    v = judge_twins(sc) if "twins" in sc else judge_session(sc) if "second" in sc else judge_freeze(sc) if "frozen" in sc \
+    v = judge_legacy(sc) if "legacy" in sc else judge_twins(sc) if "twins" in sc else judge_session(sc) if "second" in sc else judge_freeze(sc) if "frozen" in sc \
         else judge_frame(sc)
     return {"violates": bool(v), "detail": v}
